@@ -265,9 +265,13 @@ def check_extend(ctx, cfg, key):
                 # writes the zipped source item (tuple field 1) into the zipped slot (tuple field 0)
                 ws = [c for c in ca.calls if c.fn in ("core::mem::MaybeUninit::<T>::write", "core::ptr::write")]
                 pair = len(ws) == 1 and ws[0].args[1] == ("V", "proj", ("proj", ("V", "arg", 2), (1,))) and ws[0].args[0][0] == "P" and ws[0].args[0][1] == ("obj", ("proj", ("proj", ("V", "arg", 2), (0,))))
-                c_ok = cok and role == "builder" and pair
+                # "counts it" means: in the builder's OWN position field, the one its Drop reads - a count kept anywhere else (a local copy written
+                # back after the loop) leaves the stored items unowned whenever the source panics or the loop is left early
+                own = bool(info["positions"]) and all((not isinstance(k_, tuple)) and k_ < len(cv[2]) and cv[2][k_][0] == "P" and cv[2][k_][1][0] == "field"
+                                                      and cv[2][k_][1][1] in (("arg", 1), ("obj", ("cell", (("arg", 1), ())))) and cv[2][k_][1][2][0] in o["pos"] for k_ in info["positions"])
+                c_ok = cok and role == "builder" and pair and own
             ok = d_ok and s_ok and c_ok
-            det = "zip receiver is the destination (iter_mut over the builder's whole array): %s; zip argument is the source parameter: %s; closure stores item -> slot and counts it: %s" % (d_ok, s_ok, c_ok)
+            det = "zip receiver is the destination (iter_mut over the builder's whole array): %s; zip argument is the source parameter: %s; closure stores item -> slot and counts it in the builder's own position: %s" % (d_ok, s_ok, c_ok)
     ctx.ob(rule, key, ok, det, at=b["at"], cfg=cfg)
     ctx.sample({"rule": rule, "fn": key, "cfg": cfg, "detail": det})
 
